@@ -32,7 +32,7 @@ import ast
 from pathlib import Path
 
 from src.core.base import BaseLintContext, MultiLanguageLintRule
-from src.core.linter_utils import load_linter_config
+from src.core.linter_utils import load_linter_config, project_relative_path
 from src.core.types import Violation
 from src.core.violation_utils import get_violation_line, has_python_noqa, has_typescript_noqa
 from src.linter_config.ignore import get_ignore_parser
@@ -340,7 +340,7 @@ class PrintStatementRule(MultiLanguageLintRule):  # thailint: ignore[srp]
             Violation or None if should not flag
         """
         # Check if test file (skip test files)
-        if self._is_test_file(context.file_path):
+        if self._is_test_file("/" + project_relative_path(context)):
             return None
 
         violation = self._violation_builder.create_typescript_violation(
